@@ -117,6 +117,16 @@ def run(ck):
             fr.add([txt], 'fasta', 1, 5)
             fmeta.append((prem, seqs, txt))
             ck.count('reader-format:' + fmtk)
+        # the decisive letters sit in ONE record - the last, the first, or a middle one: every record must be counted
+        for k in range(6 if ck.tier == 'quick' else 40):
+            tags = [gen.rand_seq(rng, 'ACGT', rng.range(5, 9)) for _ in range(rng.range(3, 7))]
+            big = gen.rand_seq(rng, 'WFYLIKEDQRSHVMP', sum(len(t) for t in tags) + rng.range(10, 60))
+            pos = [len(tags), 0, len(tags) // 2][k % 3]
+            recs = tags[:pos] + [big] + tags[pos:]
+            txt = ''.join('>r%d\n%s\n' % (i, r) for i, r in enumerate(recs))
+            fr.add([txt], 'fasta', 1, 5)
+            fmeta.append(('p2', recs, txt))
+            ck.count('reader-format:fasta, decisive record %s' % ['last', 'first', 'middle'][k % 3])
         for (prem, seqs, txt), r in zip(fmeta, fr.run()):
             st = r['status']
             want = 'biotype=1' if prem == 'p1' else 'biotype=0'
